@@ -262,7 +262,16 @@ pub fn nesting_family(ctx: &mut Ctx) {
         }
         t
     };
+    // a pure chain ( ( ( ... leaf ... ) ) ): the only value sits at the deepest point
+    let chain = |depth: usize, leaf: Tree| {
+        let mut t = Tree::L(vec![leaf]);
+        for _ in 0..depth {
+            t = Tree::L(vec![t]);
+        }
+        t
+    };
     for depth in [40usize, 64] {
+        for shape in 0..2 {
         for name in &names {
             let id = match ctx.take() {
                 Some(id) => id,
@@ -271,9 +280,17 @@ pub fn nesting_family(ctx: &mut Ctx) {
             ctx.transitions += 1;
             ctx.states += 1;
             let mut m0 = M::default();
-            m0.c = vec![nest(depth, 1), nest(depth, 2), nest(depth, 1)];
+            // second item: for even case ids a different nest (searches fail), for odd ones the innermost list of the
+            // top item (searches succeed at the deepest point)
+            m0.c = vec![nest(depth, 1), if id % 2 == 0 { nest(depth, 2) } else { Tree::L(vec![Tree::I(1)]) }, nest(depth, 1)];
             m0.e = vec![nest(depth, 3), nest(depth, 3), Tree::I(9)];
             m0.i = vec![depth as i32, 1, 0, 2];
+            if shape == 1 {
+                // records whose only BOOLEAN / INTEGER / FLOAT lies at the bottom of the chain, addressed as value 0 of record 0
+                m0.c = vec![chain(depth, Tree::L(vec![Tree::B(true), Tree::I(5), Tree::F(1.5)])), chain(depth, Tree::I(5)), Tree::I(5)];
+                m0.e = vec![chain(depth, Tree::I(3)), chain(depth, Tree::I(3))];
+                m0.i = vec![0, 0, 1, 2];
+            }
             m0.b = vec![true, false];
             m0.n = vec!["A".into(), "B".into()];
             m0.iv = vec![vec![5, 9, 1], vec![9]];
@@ -300,8 +317,9 @@ pub fn nesting_family(ctx: &mut Ctx) {
                     }
                 }
             };
-            ctx.nontrivial_mark(&format!("{}|{}", name, depth));
-            ctx.record(id, &okey, verdict, || format!("{} on items nested {} levels deep", name, depth));
+            ctx.nontrivial_mark(&format!("{}|{}|{}", name, depth, shape));
+            ctx.record(id, &okey, verdict, || format!("{} on items nested {} levels deep ({})", name, depth, if shape == 0 { "mixed nest" } else { "pure chain" }));
+        }
         }
     }
 }
